@@ -160,6 +160,7 @@ fn make_ca(notify: &str) -> Arc<CaCert> {
         rpki_manifest: format!("{repo}ca.mft"),
         rpki_notify: Some(notify.into()),
         ca_issuer: String::new(), crl_uri: String::new(),
+            same_name: false,
     };
     let cert = Cert::decode(pki::make_ca_cert(&spec)).unwrap().validate_ta(
         TalInfo::from_name("sim".into()).into_arc(), false
@@ -1076,6 +1077,10 @@ pub struct Cell {
     /// For current and stale: the copy was last confirmed by a 304 answer
     /// (rather than by the 200 answer that created it).
     pub via_304: bool,
+    /// For current and stale: between the creation of the copy and the
+    /// observed run there was a run in which the notification announced a
+    /// newer version but the delta and the snapshot could not be fetched.
+    pub via_failed_delta: bool,
 }
 
 pub fn c29_cells() -> Vec<Cell> {
@@ -1085,13 +1090,17 @@ pub fn c29_cells() -> Vec<Cell> {
             for rrdp_on in [true, false] {
                 for rsync_on in [true, false] {
                     for has_notify in [true, false] {
-                        for via_304 in [false, true] {
-                            if via_304 && outcome != 1 && outcome != 2 {
+                        for (via_304, via_failed_delta) in [
+                            (false, false), (true, false), (false, true)
+                        ] {
+                            if (via_304 || via_failed_delta)
+                                && outcome != 1 && outcome != 2
+                            {
                                 continue
                             }
                             res.push(Cell {
                                 policy, outcome, rrdp_on, rsync_on,
-                                has_notify, via_304
+                                has_notify, via_304, via_failed_delta
                             });
                         }
                     }
@@ -1119,7 +1128,10 @@ pub fn run_c29(index: usize, scratch: &Path) -> RunResult {
     let desc = format!(
         "policy {policy_name}, RRDP outcome {outcome_name}{}, rrdp {}, rsync {}, \
          CA {} rpkiNotify",
-        if cell.via_304 { " (copy last confirmed by a 304)" } else { "" },
+        if cell.via_304 { " (copy last confirmed by a 304)" }
+        else if cell.via_failed_delta {
+            " (after a run whose delta and snapshot fetches failed)"
+        } else { "" },
         if cell.rrdp_on { "on" } else { "off" },
         if cell.rsync_on { "on" } else { "off" },
         if cell.has_notify { "with" } else { "without" },
@@ -1170,6 +1182,7 @@ pub fn run_c29(index: usize, scratch: &Path) -> RunResult {
             rpki_manifest: format!("{repo}ca.mft"),
             rpki_notify: cell.has_notify.then(notify_uri),
             ca_issuer: String::new(), crl_uri: String::new(),
+            same_name: false,
         };
         let cert = Cert::decode(pki::make_ca_cert(&spec)).unwrap().validate_ta(
             TalInfo::from_name("sim".into()).into_arc(), false
@@ -1216,6 +1229,27 @@ pub fn run_c29(index: usize, scratch: &Path) -> RunResult {
                     ), step: 0
                 });
             }
+        }
+        if cell.via_failed_delta {
+            // A run that learns of a newer version but can fetch neither
+            // the delta nor the snapshot: the copy stays as it is.
+            sim::clock::advance(10);
+            let mut newer = objects.clone();
+            newer.insert(
+                format!("{repo}extra.roa"), Bytes::from_static(b"newer")
+            );
+            srv.publish(newer);
+            let mut routes = srv.routes();
+            for (uri, route) in routes.iter_mut() {
+                if !uri.ends_with("notification.xml") {
+                    *route = Route::status(500);
+                }
+            }
+            http.set_routes(routes);
+            let collector = Collector::new(&config).expect("collector");
+            let run = collector.start();
+            let _ = run.repository(&ca);
+            drop(run);
         }
         sim::clock::advance(second);
     }
